@@ -115,6 +115,27 @@ def gen_red(rnd, n):
     return out
 
 
+def gen_red_directed(rnd):
+    """near-ties one ulp of the *fraction* apart, at counts whose double
+    resolution is 1/2 or 1/4 cycle (so that count + frac rounds): every
+    reduction, both forms; always present, whatever the seed."""
+    import math
+    out = []
+    for c in (2.0 ** 51, 2.0 ** 51 + 1, -(2.0 ** 51), 2.0 ** 50 + 3, 2.0 ** 52 - 2):
+        for f0 in (0.3939987063411339, -0.3863335089645841, 0.2600000000000001, 0.12):
+            f1 = math.nextafter(f0, 1.0)
+            f2 = math.nextafter(f1, 1.0)
+            pool = [f2, f1, f0, f1, f0, f2]
+            for fn in RED_FNS:
+                ff = pool[:]
+                if rnd.random() < 0.5:
+                    rnd.shuffle(ff)
+                shape, axis = rnd.choice([([6], None), ([6], 0), ([2, 3], 1), ([3, 2], 0)])
+                out.append({"ev": "red", "fn": fn, "form": rnd.choice(["method", "method", "numpy"]), "axis": axis,
+                            "ph": {"i": [hx(c)] * 6, "f": [hx(x) for x in ff], "im": False, "shape": shape}})
+    return out
+
+
 # ---------------------------------------------------------------------- text
 BRIEF_STRINGS = ["5", "5.0", ".5", "0.5", "1e3", "-0.18e-2", "0.0", "0", "1.25e2", "125e-2", "1.5", "-1.5", "+1.5", "1.5j",
                  "0.5j", "5j", "0j", "0.0j", "-0.0", "1.25D2", "1.25d-2", "1.25E+2", "-.5", "+.25e1", "00012.500",
@@ -211,6 +232,7 @@ def gen_roundtrip(rnd, n):
 
 def recipes(rnd, scale):
     rc = gen_cmp(rnd, 420 * scale)
+    rc += gen_red_directed(rnd)
     rc += gen_red(rnd, 330 * scale)
     rc += gen_from_string(rnd, 700 * scale)
     rc += gen_to_string(rnd, 800 * scale)
@@ -221,21 +243,41 @@ def recipes(rnd, scale):
 NEGS = (("Neg_PhaseText_parse.cfg", "ParseAgrees"), ("Neg_PhaseText_format.cfg", "Rendered"))
 
 
+def model_checking(thorough):
+    w = 16 if thorough else 6
+    out = [("MC_PhaseText_" + ("full" if thorough else "quick"),
+            tlc.run("MC_PhaseText", "MC_PhaseText_full.cfg" if thorough else "MC_PhaseText_quick.cfg", workers=w,
+                    timeout=3000), True, None)]
+    for cfg, inv in NEGS:
+        out.append(("neg:" + cfg, tlc.run("MC_PhaseText", cfg, workers=2, timeout=600), False, inv))
+    return out
+
+
+def file_mc(chk, results):
+    for name, r, must, inv in results:
+        if must:
+            chk.mc_must_hold(name, r)
+            chk.exhaustive = r.ok
+        else:
+            chk.add_tlc(name, r)
+            if r.violation != inv:
+                chk.machinery_errors.append("%s: TLC should reject the pinned transcription with %s, got %r"
+                                            % (name, inv, r.violation))
+    chk.notes["negative_configs_rejected"] = ["%s (%s)" % n for n in NEGS]
+
+
 def run(chk):
+    import concurrent.futures as cf
     rnd = random.Random(chk.seed)
     thorough = chk.tier == "thorough"
-    r = tlc.run("MC_PhaseText", "MC_PhaseText_full.cfg" if thorough else "MC_PhaseText_quick.cfg", timeout=3000)
-    chk.mc_must_hold("MC_PhaseText_" + ("full" if thorough else "quick"), r)
-    chk.exhaustive = r.ok
-    for cfg, inv in NEGS:
-        rn = tlc.run("MC_PhaseText", cfg, workers=4, timeout=600)
-        chk.add_tlc("neg:" + cfg, rn)
-        if rn.violation != inv:
-            chk.machinery_errors.append("%s: TLC should reject the pinned transcription with %s, got %r"
-                                        % (cfg, inv, rn.violation))
-    chk.notes["negative_configs_rejected"] = ["%s (%s)" % n for n in NEGS]
-    rcs = recipes(rnd, 14 if thorough else 1)
-    events, rejected = pd.validate(chk, rcs, "C15")
+    with cf.ThreadPoolExecutor(max_workers=1) as ex:
+        mc = ex.submit(model_checking, thorough) if not thorough else None
+        if thorough:
+            file_mc(chk, model_checking(True))
+        rcs = recipes(rnd, 16 if thorough else 1)
+        events, rejected = pd.validate(chk, rcs, "C15", procs=None if thorough else 8)
+        if mc is not None:
+            file_mc(chk, mc.result())
     seen = set()
     for ev in events:
         if ev["ev"] not in seen:
